@@ -1,0 +1,77 @@
+//go:build verif
+
+package fzf
+
+import (
+	"github.com/junegunn/fzf/src/algo"
+	"github.com/junegunn/fzf/src/util"
+)
+
+// Verification hooks (build tag verif): thin exported wrappers around the
+// unexported parts of pattern.go. No logic, only conversion to exported types.
+
+// VerifTerm is the exported image of a term.
+type VerifTerm struct {
+	Typ           int
+	Inv           bool
+	Text          []rune
+	CaseSensitive bool
+	Normalize     bool
+}
+
+func verifTermSets(sets []termSet) [][]VerifTerm {
+	out := make([][]VerifTerm, len(sets))
+	for i, set := range sets {
+		out[i] = make([]VerifTerm, len(set))
+		for j, t := range set {
+			out[i][j] = VerifTerm{int(t.typ), t.inv, t.text, t.caseSensitive, t.normalize}
+		}
+	}
+	return out
+}
+
+// VerifParseTerms exposes parseTerms.
+func VerifParseTerms(fuzzy bool, caseMode Case, normalize bool, str string) [][]VerifTerm {
+	return verifTermSets(parseTerms(fuzzy, caseMode, normalize, str))
+}
+
+// VerifPattern wraps a *Pattern built for whole-line matching.
+type VerifPattern struct{ p *Pattern }
+
+// VerifBuildPattern exposes BuildPattern (fresh caches, no --nth, no denylist).
+func VerifBuildPattern(fuzzy bool, v2 bool, extended bool, caseMode Case, normalize bool, forward bool, withPos bool, query []rune) *VerifPattern {
+	fuzzyAlgo := algo.FuzzyMatchV1
+	if v2 {
+		fuzzyAlgo = algo.FuzzyMatchV2
+	}
+	return &VerifPattern{BuildPattern(NewChunkCache(), make(map[string]*Pattern), fuzzy, fuzzyAlgo, extended, caseMode, normalize, forward,
+		withPos, false, []Range{}, Delimiter{}, revision{}, query, nil)}
+}
+
+// Info exposes the fields BuildPattern computed.
+func (vp *VerifPattern) Info() (bool, bool, []rune, [][]VerifTerm) {
+	return vp.p.caseSensitive, vp.p.normalize, vp.p.text, verifTermSets(vp.p.termSets)
+}
+
+// VerifSlab allocates a scratch slab of the size fzf uses.
+func VerifSlab() *util.Slab { return util.MakeSlab(slab16Size, slab32Size) }
+
+// MatchItem exposes Pattern.MatchItem on one line: matched or not.
+func (vp *VerifPattern) MatchItem(line []byte, withPos bool, slab *util.Slab) bool {
+	item := Item{text: util.ToChars(line)}
+	result, _, _ := vp.p.MatchItem(&item, withPos, slab)
+	return result != nil
+}
+
+// Match exposes extendedMatch / basicMatch on one line: offsets in term-set order, total score, positions.
+func (vp *VerifPattern) Match(line []byte, withPos bool, slab *util.Slab) ([]Offset, int, *[]int) {
+	item := Item{text: util.ToChars(line)}
+	if vp.p.extended {
+		return vp.p.extendedMatch(&item, withPos, slab)
+	}
+	offset, score, pos := vp.p.basicMatch(&item, withPos, slab)
+	return []Offset{offset}, score, pos
+}
+
+// NumTermSets exposes len(termSets).
+func (vp *VerifPattern) NumTermSets() int { return len(vp.p.termSets) }
